@@ -622,7 +622,8 @@ def run(chk):
         unchk = single and b["unchecked"](next((n for n, lo, hi in b["regions"] if lo <= int(single.group(1)) < hi), "gap"))
         if unchk or not single:
             sel.append(i)
-    rest = [i for i, (b, p) in enumerate(cases) if "big" not in b and i not in set(sel)]
+    selset = set(sel)
+    rest = [i for i, (b, p) in enumerate(cases) if "big" not in b and i not in selset]
     if len(sel) < budget:
         step = max(1, len(rest) // max(1, budget - len(sel)))
         sel += rest[rng.below(step)::step]
